@@ -240,6 +240,8 @@ func c16(r *engine.Report, p *engine.Program) {
 			okp, why := errorPropagates(su, ci.(*ssa.Call))
 			r.Check("R2-transport", "sendUnreachable: error of sendMessage", ci.Pos(), okp, why, why)
 		}
+		okA, whyA := noticeAlwaysSent(p, su)
+		r.Check("R2-transport", "sendUnreachable: every notice is transmitted", su.Pos(), okA, "assuming the encoding succeeded, no return of sendUnreachable is reachable without sendMessage", whyA)
 		r.Check("R2-transport", "sendUnreachable: from/to service 'unreach', to the given node", su.Pos(), ok, "notices use the reserved service on both ends", "notices are not sent from/to the reserved 'unreach' service of the target node")
 		// handleUnreachable publishes {msg, ReceivedFromNode: md.FromNode}
 		okH := false
